@@ -101,6 +101,15 @@ def _cmp_loop_form(rows):
     return None
 
 
+def dispatch_truth(lab):
+    if isinstance(lab, tuple):
+        if lab[0] == 'otherwise':
+            return True
+        if lab[0] == 'case':
+            return lab[1] != 0
+    return None
+
+
 def is_as_var(e, who):
     e = ir.peel(e)
     return e[0] == 'call' and e[1] in (OWN + "::as_var", "<cgi::OwnedVarName as std::borrow::Borrow>::borrow") and ir.peel(e[2][0])[0] == 'param' and ir.peel(e[2][0])[2] == who
@@ -304,7 +313,12 @@ def run(rep, facts):
     for r in rows:
         if r.end == 'return' and r.ret is not None:
             x = ir.peel(r.ret)
-            ok = x[0] == 'call' and x[1].endswith("::cmp") and all(any(y[0] == 'call' and y[1].endswith("AsRef>::as_ref") for y in ir.walk(a)) for a in x[2])
+            # either generated conversion to the canonical string (AsRef<str> / From<StaticVarName> for &'static str; both tables are checked above)
+            def to_str(a):
+                return any(y[0] == 'call' and (y[1].endswith("AsRef>::as_ref") or y[1].endswith("::into") or y[1].endswith("::from"))
+                           and y[2] and ir.peel(y[2][0])[0] in ('param', 'deref') for y in ir.walk(a))
+            ok = x[0] == 'call' and x[1].endswith("::cmp") and len(x[2]) == 2 and all(to_str(a) for a in x[2]) and \
+                {p_[2] for a in x[2] for p_ in ir.walk(a) if p_[0] == 'param'} == {'self', 'other'}
     (rep.ok if ok else rep.violation)("R19.4", "static-ord", "interned names are ordered by their strings" if ok else "StaticVarName::cmp does not compare the canonical strings", b.loc())
 
     # ---- R19.5 ---------------------------------------------------------------------------------------------
@@ -393,7 +407,39 @@ def run(rep, facts):
                     seps.add(v)
                 if nm.endswith("CompactString::push") and len(args) > 1:
                     pushes.add(ir.const_value(args[1]))
-        if consts == {b"HTTP_"} and seps == {ord('-')} and pushes == {ord('_')}:
+        # the same mapping written per character: var.extend(name.chars().map(|c| if c == '-' { '_' } else { c }))
+        charmap = False
+        for r in rows:
+            for (nm, args, n) in r.calls:
+                if nm.endswith("::map") and len(args) == 2 and any(y[0] == 'call' and y[1].endswith("::chars") for y in ir.walk(args[0])):
+                    cl = ir.peel(args[1])
+                    cb = facts.by_path.get(cl[2]) if cl[0] == 'agg' and cl[1] == 'closure' else None
+                    if cb is None:
+                        continue
+                    cg = ieg.IEG(facts, cb, inline_filter=lambda x: False)
+                    tab = {}
+                    for q in paths.rows(cg):
+                        if q.end != 'return' or q.ret is None:
+                            continue
+                        cs = [(ir.peel(e, casts=False), lab) for (e, lab, nd) in q.conds if ir.const_value(e) is None]
+                        if len(cs) != 1 or cs[0][0][0] != 'bin' or cs[0][0][1] not in ('Eq', 'Ne'):
+                            tab = None
+                            break
+                        e_, lab = cs[0]
+                        ops = [ir.peel(e_[2]), ir.peel(e_[3])]
+                        cv_ = [ir.const_value(o) for o in ops]
+                        if not (ord('-') in cv_ and any(o[0] == 'param' for o in ops)):
+                            tab = None
+                            break
+                        eq = (dispatch_truth(lab) == (e_[1] == 'Eq'))
+                        rv = ir.peel(q.ret)
+                        tab[eq] = ir.const_value(rv) if ir.const_value(rv) is not None else ('param' if rv[0] == 'param' else '?')
+                    if tab == {True: ord('_'), False: 'param'}:
+                        charmap = True
+        extends = any(nm.endswith("::extend") for r in rows for (nm, args, n) in r.calls)
+        if consts == {b"HTTP_"} and charmap and extends and not seps and not pushes:
+            rep.ok("R19.6", "header-mapping", "\"HTTP_\" + name.chars().map('-' => '_', other => itself) (then from_compact upper-cases)", b.loc())
+        elif consts == {b"HTTP_"} and seps == {ord('-')} and pushes == {ord('_')}:
             rep.ok("R19.6", "header-mapping", "\"HTTP_\" + name.split('-') joined with '_' (then from_compact upper-cases)", b.loc())
         else:
             rep.violation("R19.6", "header-mapping", "prefix %s, split on %s, joined with %s; expected HTTP_, '-', '_'" % (consts, seps, pushes), b.loc())
